@@ -25,7 +25,7 @@ RULE = (
 ASSUMPTIONS = ["bounded to the listed positive-duration families", "completed/scheduled sets come from the reference model (current time under the installed filter)"]
 BOUNDS = {
     "quick": "K3+ complete, each instance under 8 of 20 configurations in rotation (4 builders x 4 option pairs unfiltered + 4 builders x default options x dominated filter); K4+[seed%32::32] x 8 configurations (4 builders x default options x 2 filters); positive probes with <= 6 operations x 4 builders",
-    "thorough": "K3+, K4+ x 32 configurations; M3 small x 8; probes x 8",
+    "thorough": "K3+ x 32 configurations; K4+ complete, each instance under 6 of the 32 configurations in rotation; M3 small x 8; probes x 8",
 }
 
 OPTIONS = [(True, True), (False, True), (True, False), (False, False)]
@@ -50,8 +50,8 @@ def cases(tier, seed):
             if not F.has_zero(s) and F.n_ops(s) <= 6:
                 out.append(("residual", s, tuple((b, (True, True), ()) for b in _env.BUILDERS)))
     else:
-        for s in F.K4_pos():
-            out.append(("residual", s, tuple(full)))
+        for i, s in enumerate(F.K4_pos()):
+            out.append(("residual", s, tuple(full[(i * 6 + k + seed) % len(full)] for k in range(6))))
         for s in F.M3_small():
             out.append(("residual", s, tuple(dflt)))
         for s in F.P_ALL:
